@@ -144,11 +144,121 @@ def tightest(kind, oldv, ops):
     return None
 
 
+# ----------------------------------------------------------------------------- B: scenario families outside Model/SnapOps.v
+SC_HDR = "from inline_snapshot import snapshot\nimport copy\nLOG = []\n\n\n"
+
+
+def gen_bound_scenario(rng, i):
+    """a <= / >= snapshot compared several times with a MUTABLE value (list of ints) that is mutated between and after the
+    comparisons; the documented meaning refers to the values at comparison time"""
+    sym = "<=" if i % 2 == 0 else ">="
+    n = rng.randint(2, 4)
+    start = [rng.randint(0, 5) for _ in range(rng.randint(1, 3))]
+    steps = [rng.choice(["v.append(%d)" % rng.randint(0, 9), "v[0] += %d" % rng.randint(1, 3), "v.insert(0, %d)" % rng.randint(0, 9), "v[-1] -= 1", "pass"]) for _ in range(n)]
+    after = rng.choice(["v.clear()", "v.append(99)", "v[0] = -50", "pass"])
+    old = rng.choice([None, [0], [9, 9, 9, 9], start])
+    flags = tuple(rng.choice(__import__("vh.proggen", fromlist=["x"]).flag_subsets()))
+    body = [f"    v = {start!r}", f"    s = snapshot({'' if old is None else repr(old)})", f"    for k in range({n}):", "        LOG.append(copy.deepcopy(v))",
+            f"        R.append(v {sym} s)"]
+    body += [f"        if k == {j}:\n            {st}" for j, st in enumerate(steps)]
+    body += [f"    {after}"]
+    src = SC_HDR + "R = []\n\n\ndef test_a():\n" + "\n".join(body) + "\n"
+    return {"kind": "bound", "sym": sym, "old": old, "flags": flags, "source": src}
+
+
+def gen_access_scenario(rng, i):
+    """a dict sub-snapshot whose keys are compared, only accessed (s[k] evaluated, no comparison), or untouched"""
+    keys = rng.sample(["a", "b", "c", "d", "e"], rng.randint(2, 5))
+    old = {k: rng.randint(0, 9) for k in keys}
+    roles = {k: rng.choice(["compare_ok", "compare_bad", "access", "untouched"]) for k in keys}
+    lines = []
+    for k in keys:
+        if roles[k] == "compare_ok":
+            lines.append(f"    R.append(s[{k!r}] == {old[k]})")
+        elif roles[k] == "compare_bad":
+            lines.append(f"    R.append(s[{k!r}] == {old[k] + 10})")
+        elif roles[k] == "access":
+            lines.append(f"    T.append(s[{k!r}])")
+    newkey = rng.random() < 0.3
+    if newkey:
+        lines.append("    R.append(s['zz'] == 5)")
+    flags = tuple(rng.choice(__import__("vh.proggen", fromlist=["x"]).flag_subsets()))
+    src = SC_HDR + f"R = []\nT = []\n\n\ndef test_a():\n    s = snapshot({old!r})\n" + "\n".join(lines or ["    pass"]) + "\n"
+    return {"kind": "access", "old": old, "roles": roles, "newkey": newkey, "flags": flags, "source": src}
+
+
+def run_scenario(sc):
+    from .. import driver
+    r = driver.run_inproc({"test_a.py": sc["source"]}, sc["flags"], block_black=True)
+    out = {"session_exc": r["session_exc"], "module_exc": r["module_exc"], "reported": r["reported"], "after": r["files"]["test_a.py"].decode()}
+    try:
+        out["value"] = snapgen.snapshot_arg_value(r["files"]["test_a.py"], "test_a")
+        ns = {}
+        plain = sc["source"].replace("from inline_snapshot import snapshot\n", "class _Any:\n    def __eq__(s, o): return True\n    def __le__(s, o): return True\n    def __ge__(s, o): return True\n"
+                                     "    def __getitem__(s, k): return s\ndef snapshot(*a):\n    return _Any()\n")
+        exec(compile(plain, "<plain>", "exec"), ns)
+        ns["test_a"]()
+        out["log"] = ns["LOG"]
+    except Exception as e:  # noqa
+        out["error"] = f"{type(e).__name__}: {e}"
+    return out
+
+
+def judge_scenario(sc, o):
+    if o["session_exc"] or o["module_exc"]:
+        return f"run failed: {o['session_exc'] or o['module_exc']}"
+    if "error" in o:
+        return f"cannot analyse: {o['error']}"
+    F, rep = set(sc["flags"]), set(o["reported"])
+    val = None if o["value"][0] == "none" else o["value"][1]
+    if sc["kind"] == "bound":
+        log, old = o["log"], sc["old"]
+        ext = max(log) if sc["sym"] == "<=" else min(log)        # the extreme of the values AT COMPARISON TIME
+        ok = (lambda a, b: a <= b) if sc["sym"] == "<=" else (lambda a, b: a >= b)
+        if old is None:
+            want_cat, want = "create", (ext if "create" in F else None)
+        elif not all(ok(x, old) for x in log):
+            want_cat, want = "fix", (ext if "fix" in F else old)
+        elif old != ext:
+            want_cat, want = "trim", (ext if "trim" in F else old)
+        else:
+            want_cat, want = None, old
+        if want_cat and want_cat not in rep:
+            return f"{want_cat} is pending (values at comparison time {log}, bound {old}) but reported categories are {sorted(rep)}"
+        if (rep - {"update"}) - ({want_cat} if want_cat else set()):
+            return f"categories {sorted(rep)} reported, documented meaning gives {want_cat} (values at comparison time {log}, bound {old})"
+        if val != want:
+            return f"bound after the run is {val}, documented meaning gives {want} (values at comparison time {log}, previous bound {old}, approved {sorted(F)})"
+        return None
+    # access
+    old, roles = sc["old"], sc["roles"]
+    untouched = [k for k in old if roles[k] == "untouched"]
+    if len(untouched) == len(old) and not sc["newkey"]:
+        # the snapshot is never used with [..]: no observation at all, nothing to report or change
+        return None if (not (rep - {"update"}) and val == old) else f"a snapshot that was never used reports {sorted(rep)} / changed to {val}"
+    if ("trim" in rep) != bool(untouched):
+        return f"trim reported = {'trim' in rep} but never-accessed keys are {untouched} (roles {roles})"
+    if ("fix" in rep) != any(r == "compare_bad" for r in roles.values()):
+        return f"fix reported = {'fix' in rep} although failing comparisons: {[k for k in roles if roles[k] == 'compare_bad']}"
+    want = {}
+    for k, v in old.items():
+        if roles[k] == "untouched" and "trim" in F:
+            continue
+        want[k] = v + 10 if roles[k] == "compare_bad" and "fix" in F else v
+    if sc["newkey"] and "create" in F:
+        want["zz"] = 5
+    if val != want:
+        return f"dict after the run is {val}, documented meaning gives {want} (roles {roles}, approved {sorted(F)})"
+    return None
+
+
 def run(ctx: Ctx):
     ctx.coverage["rule"] = (
         "single call sites: previous source (none / atom / list / nested dict, leaves canonical or hand-written) x 0-5 comparisons of one operation kind "
         "(occasionally a foreign one) x subset of approved categories; executed by the real code in-process; observed results, counters, reported categories and the "
         "value of the rewritten argument are compared with Model/SnapOps.v inside Coq and checked against the documented category semantics; "
+        "B (oracle only): bounds compared several times with a mutable value that is mutated between and after the comparisons (the meaning refers to the values at "
+        "comparison time), and dict sub-snapshots whose keys are compared, only accessed, or untouched (trim removes exactly the never-accessed keys); "
         "distinct = (source, flags, ops); non-trivial = >= 2 operations or container-valued snapshot")
     proof_step(ctx)
     n = 1500 if not ctx.thorough else 15000
@@ -177,6 +287,17 @@ def run(ctx: Ctx):
             ctx.report(f"Model/SnapOps.v and implementation differ (property oracle silent): {c} -> {o['results']} counters=({o['missing']},{o['incorrect']}) reported={o['reported']} value={o['value']}",
                        {"case": c, "obs": o}, no_input=True, kind="correspondence")
     ctx.coverage["correspondence"]["snapops"] = {"cases": len(cases), "mismatches": len(bad)}
+    # B
+    from ..core import pmap
+    ms = 200 if not ctx.thorough else 2000
+    scs = [(gen_bound_scenario if i % 2 == 0 else gen_access_scenario)(ctx.rng, i // 2) for i in range(ms)]
+    for sc, o in zip(scs, pmap(run_scenario, scs, chunksize=8)):
+        ctx.count(("scenario", sc["source"], sc["flags"]), True)
+        ctx.dist("B.scenario=" + sc["kind"])
+        why = judge_scenario(sc, o)
+        if why:
+            ctx.report("C05 oracle: " + why, {"scenario": sc, "after": o.get("after")})
+    ctx.coverage["oracle"]["scenarios"] = ms
     ctx.sample({"case": cases[0], "test": obs[0].get("source"), "after": obs[0].get("after")})
     ctx.sample({"case": cases[1], "observation": {k: obs[1].get(k) for k in ("results", "missing", "incorrect", "reported", "value")}})
 
@@ -189,6 +310,14 @@ def classify(case, obs):
 
 
 def replay(ctx: Ctx, data):
+    if "scenario" in data["case"]:
+        sc = data["case"]["scenario"]
+        sc["flags"] = tuple(sc["flags"])
+        o = run_scenario(sc)
+        print(o.get("after"), o.get("log"), o.get("reported"))
+        why = judge_scenario(sc, o)
+        print("oracle:", why)
+        return why is None
     case = data["case"]["case"]
     case["flags"] = tuple(case["flags"])
     case["old"] = _tup(case["old"])
